@@ -147,7 +147,8 @@ func fillValidCharsByRangeExpression(table []bool, expression string) error {
 			}
 		} else {
 			if rangeStarted {
-				for rc := expr[i-2]; rc <= c; rc++ {
+				// count in int: a byte counter wraps around at 0xFF and would never pass a range end of 0xFF
+				for rc := int(expr[i-2]); rc <= int(c); rc++ {
 					table[rc] = listedValue
 				}
 				rangeStarted = false
